@@ -98,6 +98,8 @@ func Walk(v Visitor, node Node) {
 						Walk(v, e)
 					}
 				}
+			case *DomainTextLitEx:
+				walkList(v, e.Args)
 			}
 		}
 
